@@ -19,6 +19,8 @@ lazy_static! {
         sc.add_stat_slot(flow::default_stand_alone_stat_slot()); // 3000
         sc.add_stat_slot(hotspot::default_stand_alone_stat_slot()); // 4000
         sc.add_stat_slot(circuitbreaker::default_metric_stat_slot()); // 5000
+        #[cfg(flea1lt_sentinel_rust_verif)]
+        sc.add_stat_slot(crate::verif::recorder::slot()); // u32::MAX, observes only
         Arc::new(sc)
     };
 }
